@@ -53,7 +53,7 @@ type c11Batch struct {
 	UDP       int
 }
 
-var c11Patterns = []string{"stray-only", "stray-then-right", "stale-previous", "unsolicited-twice", "reordered", "busy-stray-giveup", "encapsulated", "reflected"}
+var c11Patterns = []string{"stray-only", "stray-then-right", "stale-previous", "unsolicited-twice", "reordered", "busy-stray-giveup", "encapsulated", "reflected", "stale-previous-same-cmd-value", "busy-then-stray-then-right", "lost-then-stray-then-right"}
 
 func init() {
 	register(&Check{
@@ -198,8 +198,14 @@ func c11Run(run *ev.Run, o c11One) {
 		}
 		return refbmc.RMCP(refbmc.SessHdr(0, 0, 0, m))
 	}
+	shared := &RawCmd{} // one command value re-targeted between sends (a caller's "raw command" helper)
 	send := func(op c11Op, maxSends int) (ipmi.CompletionCode, []byte, error, any, string) {
-		cmd := &RawCmd{Op: ipmi.Operation{Function: ipmi.NetworkFunction(op.NetFn), Command: ipmi.CommandNumber(op.Cmd)}, NoReq: !op.Group && !op.OEM, Label: op.Name}
+		cmd := &RawCmd{}
+		if o.Pattern == "stale-previous-same-cmd-value" {
+			cmd = shared
+			cmd.Rsp = RawRsp{}
+		}
+		*cmd = RawCmd{Op: ipmi.Operation{Function: ipmi.NetworkFunction(op.NetFn), Command: ipmi.CommandNumber(op.Cmd)}, NoReq: !op.Group && !op.OEM, Label: op.Name}
 		if op.Group {
 			cmd.Op.Body = ipmi.BodyCodeDCMI
 			cmd.Req = []byte{1, 0, 0}
@@ -238,7 +244,7 @@ func c11Run(run *ev.Run, o c11One) {
 	strays := 0
 	var prevReply []byte
 	switch o.Pattern {
-	case "stale-previous":
+	case "stale-previous", "stale-previous-same-cmd-value":
 		// call A for real first; its reply is delivered again to B's first attempt
 		e.Filter = func(n int, req, reply []byte) ([]byte, error) { prevReply = reply; return reply, nil }
 		if _, _, err, pv, st := send(opA, 4); err != nil || pv != nil {
@@ -266,7 +272,26 @@ func c11Run(run *ev.Run, o c11One) {
 				strays++
 				return wrap(strayMsg(last)), nil
 			}
-		case "stale-previous":
+		case "busy-then-stray-then-right", "lost-then-stray-then-right":
+			// the first attempt fails for an unrelated reason; the stray meets the second one
+			if attempt == 1 {
+				if o.Pattern[0] == 'l' && !o.InSession {
+					return nil, nil
+				}
+				pre := []byte(nil)
+				if opB.Group {
+					pre = []byte{0xdc}
+				}
+				if opB.OEM {
+					pre = c11Enterprise
+				}
+				return wrap(refbmc.RespMsg(last, 0xc0, pre)), nil
+			}
+			if attempt == 2 {
+				strays++
+				return wrap(strayMsg(last)), nil
+			}
+		case "stale-previous", "stale-previous-same-cmd-value":
 			if attempt == 1 && prevReply != nil {
 				strays++
 				return prevReply, nil
